@@ -90,6 +90,44 @@ Theorem C13_compare_semantics : forall o path n,
 Proof. exact compare_semantics. Qed.
 Print Assumptions C13_compare_semantics.
 
+(* a float reference value num/den (den > 0; the exact value of the float): the comparison operators on an
+   integer attribute compare exact values *)
+Theorem C13_compare_semantics_float : forall o path n,
+  attr o path = Some (JInt n) ->
+  forall num den txt, 0 < den ->
+    (eval_stmt (mkStmt path 0 (RFlt num den txt)) o = true <-> n * den = num) /\
+    (eval_stmt (mkStmt path 1 (RFlt num den txt)) o = true <-> n * den <> num) /\
+    (eval_stmt (mkStmt path 2 (RFlt num den txt)) o = true <-> n * den > num) /\
+    (eval_stmt (mkStmt path 3 (RFlt num den txt)) o = true <-> n * den < num) /\
+    (eval_stmt (mkStmt path 4 (RFlt num den txt)) o = true <-> n * den >= num) /\
+    (eval_stmt (mkStmt path 5 (RFlt num den txt)) o = true <-> n * den <= num).
+Proof. exact compare_semantics_float. Qed.
+Print Assumptions C13_compare_semantics_float.
+
+(* reference values that denote the same number but differ in type (1 / True / 1.0, n / float(n)) are
+   interchangeable for ==, !=, >, <, >=, <= on every stored value and for like / notlike on everything but a
+   string. On a string like / notlike look for the TEXT of the reference value (C13_like_semantics: rv_str r), which
+   differs with the type - C13_reference_type_example: a statement must be evaluated with its own reference value *)
+Theorem C13_same_number_interchangeable : forall v r1 r2 op,
+  rv_wf r1 -> rv_wf r2 -> same_number r1 r2 ->
+  (0 <= op <= 5 \/ (forall s, v <> JStr s)) ->
+  apply_op op v r1 = apply_op op v r2.
+Proof. exact same_number_interchangeable. Qed.
+Print Assumptions C13_same_number_interchangeable.
+
+Definition txt_1_0 : str := [49; 46; 48].                                            (* "1.0" *)
+Definition s_lt100m : str := [108; 101; 115; 115; 84; 104; 97; 110; 49; 48; 48; 109]. (* "lessThan100m" *)
+Example C13_reference_type_example :
+  same_number (RInt 1) (RBool true) /\ same_number (RInt 1) (RFlt 1 1 txt_1_0) /\
+  apply_op 6 (JStr s_lt100m) (RInt 1) = true /\
+  apply_op 6 (JStr s_lt100m) (RBool true) = false /\
+  apply_op 6 (JStr s_lt100m) (RFlt 1 1 txt_1_0) = false /\
+  apply_op 7 (JStr s_lt100m) (RInt 1) = false /\
+  apply_op 7 (JStr s_lt100m) (RBool true) = true /\
+  apply_op 6 (JStr txt_1_0) (RFlt 1 1 txt_1_0) = true /\
+  apply_op 0 (JInt 1) (RFlt 1 1 txt_1_0) = true /\ apply_op 3 (JInt 2) (RFlt 5 2 [50; 46; 53]) = true.
+Proof. vm_compute. repeat split. Qed.
+
 (* Non-vacuity: a store with a CAM and a DENM; paths that exist, that are missing, and an ordering. *)
 Definition ex_s (l : list Z) : str := l.
 Definition k_header := [104; 101; 97; 100; 101; 114].           (* "header" *)
